@@ -153,6 +153,12 @@ TrCardCell ==
                 {"CardCell"})
 
 \* (\E cs \in {..} binds the coordinates as a value: a LET definition would be re-evaluated at every use)
+TrCardSize ==
+    /\ IsEv("CardSize")
+    /\ LET e == E IN
+       DonePure(<< <<"C18.size", e.size = e.d * e.h * e.w /\ e.newLen = e.size>>,
+                   <<"C18.fromData", e.acceptsExact /\ ~e.acceptsShort /\ ~e.acceptsLong>> >>, {"CardSize"})
+
 TrCardCoord ==
     /\ IsEv("CardCoord")
     /\ \E cs \in {Coordinates(E.w, E.h, E.count, E.seed)} :
@@ -195,6 +201,13 @@ BitVaries(s) == \A p \in 1..Len(s[1]), bit \in 0..7 :
                    LET ones == Cardinality({k \in 1..Len(s) : (s[k][p] \div (2 ^ bit)) % 2 = 1})
                    IN 4 * ones >= Len(s) /\ 4 * ones <= 3 * Len(s)
 Slice(v, a, z) == SubSeq(v, a, z)
+
+\* integer square root (largest r with r*r <= n), by bisection
+RECURSIVE ISqrtBetween(_, _, _)
+ISqrtBetween(n, lo, hi) == IF lo >= hi THEN lo
+                           ELSE LET mid == (lo + hi + 1) \div 2
+                                IN IF mid * mid <= n THEN ISqrtBetween(n, mid, hi) ELSE ISqrtBetween(n, lo, mid - 1)
+ISqrt(n) == ISqrtBetween(n, 0, 46340)
 
 TrDraws ==
     /\ IsEv("Draws")
@@ -242,6 +255,9 @@ TrDraws ==
           LET all == FlattenSeq(e.obs)
               freq(d) == Cardinality({k \in 1..Len(all) : all[k] = d}) IN
           << <<"C15.digitRange", \A k \in 1..Len(all) : all[k] \in 0..9>>,
+             <<"C15.digitBias", LET low == Cardinality({k \in 1..Len(all) : all[k] <= 5})      \* digits 0..5: expected share 0.6
+                                    d == IF 10 * low >= 6 * Len(all) THEN 10 * low - 6 * Len(all) ELSE 6 * Len(all) - 10 * low
+                                IN 10 * d <= 343 * (ISqrt(Len(all)) + 1)>>,   \* |low - 0.6 n| <= 7 standard deviations (sd = sqrt(0.24 n))
              <<"C15.noRepeat", Distinct(e.obs)>>,
              <<"C15.digitFrequency", \A d \in 0..9 : 20 * freq(d) >= Len(all) /\ 20 * freq(d) <= 3 * Len(all)>> >>
         ELSE << <<"H.unknownSite", FALSE>> >>,
@@ -250,7 +266,7 @@ TrDraws ==
 Next ==
     \/ TrReset \/ SkipBad(<<>>)
     \/ TrNorm \/ TrNormCmp \/ TrNormSweep \/ TrPin \/ TrPinVerify \/ TrPinSweep
-    \/ TrIntegrity \/ TrIntegrityReconnect \/ TrCardCell \/ TrCardCoord \/ TrCardProof \/ TrCardVerify
+    \/ TrIntegrity \/ TrIntegrityReconnect \/ TrCardSize \/ TrCardCell \/ TrCardCoord \/ TrCardProof \/ TrCardVerify
     \/ TrDraws
 
 Spec == Init /\ [][Next]_vars
